@@ -5,6 +5,7 @@ from pathlib import Path
 from ..decorators import cached_class_property
 from ..lazy_imports import dotenv
 from ..utils.string_conv import to_snake_case
+from .._verif import yp as _yp  # verification hook H2 (no-op by default)
 
 
 # Type of `os.environ` or `DotEnv` dict
@@ -32,6 +33,7 @@ class Env:
         global environ
 
         if (_env_not_setup := environ is None) or force_reload:
+            _yp('env.load_environ')
             # Copy `os.environ`, so as not to mutate it
             environ = os.environ.copy()
 
@@ -56,6 +58,7 @@ class Env:
         Cached mapping of `os.environ` key names. This can be refreshed with
         :meth:`reload` as needed.
         """
+        _yp('env.var_names')
         return set(environ) if environ is not None else set()
 
     @classmethod
@@ -151,6 +154,7 @@ class Env:
     @cached_class_property
     def cleaned_to_env(cls):
         cls._accessed_cleaned_to_env = True
+        _yp('env.cleaned')
         return {clean(var): var for var in cls.var_names}
 
 
